@@ -241,7 +241,7 @@ package quickfix
 // producing the value does not modify existing objects.
 // a field reader writes only the value it is (a field value type): assumption about readers defined outside the module
 //@ iface FieldValueReader.Read(recv, b)
-//@   modifies heap P.quickfix.FIXString, heap P.quickfix.FIXInt, heap P.quickfix.FIXBoolean, heap P.quickfix.FIXFloat, heap P.sl.uint8, heap H.quickfix.FIXUTCTimestamp.*, heap H.quickfix.FIXDecimal.*, heap H.time.Time.*, fresh H.quickfix.messageRejectError.*, fresh P.quickfix.Tag, fresh P.string, fresh E.any, fresh E.uint8
+//@   modifies heap P.quickfix.FIXString, heap P.quickfix.FIXInt, heap P.quickfix.FIXBoolean, heap H.quickfix.FIXUTCTimestamp.*, heap H.time.Time.*, fresh H.quickfix.messageRejectError.*, fresh P.quickfix.Tag
 //@ iface FieldValueWriter.Write(recv)
 //@   pure
 //@ iface FieldWriter.Tag(recv)
@@ -406,13 +406,13 @@ package quickfix
 //@   inline
 //@   requires fmvals(m) && parser != nil
 //@   ensures @missing !old(has(m.tagLookup, tag)) ==> result != nil && rejreason(result) == 8
-//@   modifies heap P.quickfix.FIXString, heap P.quickfix.FIXInt, heap P.quickfix.FIXBoolean, heap P.quickfix.FIXFloat, heap P.sl.uint8, heap H.quickfix.FIXUTCTimestamp.*, heap H.quickfix.FIXDecimal.*, heap H.time.Time.*, fresh H.quickfix.messageRejectError.*, fresh P.quickfix.Tag, fresh P.string, fresh E.any, fresh E.uint8
+//@   modifies *
 
 //@ func (m FieldMap) getFieldNoLock [C09,C11]
 //@   inline
 //@   requires fmvals(m) && parser != nil
 //@   ensures @missing !old(has(m.tagLookup, tag)) ==> result != nil && rejreason(result) == 8
-//@   modifies heap P.quickfix.FIXString, heap P.quickfix.FIXInt, heap P.quickfix.FIXBoolean, heap P.quickfix.FIXFloat, heap P.sl.uint8, heap H.quickfix.FIXUTCTimestamp.*, heap H.quickfix.FIXDecimal.*, heap H.time.Time.*, fresh H.quickfix.messageRejectError.*, fresh P.quickfix.Tag, fresh P.string, fresh E.any, fresh E.uint8
+//@   modifies *
 
 //@ func (m FieldMap) GetBool [C09,C11]
 //@   modifies fresh H.quickfix.messageRejectError.*, fresh P.quickfix.Tag, fresh P.quickfix.FIXString, fresh P.quickfix.FIXBoolean, fresh P.quickfix.FIXInt, fresh H.quickfix.FIXUTCTimestamp.*, fresh H.time.Time.*, fresh P.string, fresh E.any, fresh P.sl.uint8
